@@ -279,6 +279,9 @@ func registerVrt(e *engine) {
 		m := fr.m
 		label := argStr(fr, a[1])
 		if m.pos < len(m.prefix) {
+			if len(m.known) > 0 {
+				m.known = map[string]*Term{}
+			}
 			// already examined on the parent path with the same path condition
 			switch c := a[0].(type) {
 			case bool:
@@ -505,6 +508,34 @@ func registerSync(e *engine) {
 				break
 			}
 		}
+		return nil
+	})
+	// Cond: slot 1 = L (Locker iface), slot 2 = generation counter
+	e.reg("sync.NewCond", func(fr *frame, fn *ssa.Function, a []value) value {
+		ct := deref(fn.Signature.Results().At(0).Type())
+		z := zero(ct)
+		z.(structure)[1] = a[0]
+		z.(structure)[2] = 0
+		return &z
+	})
+	condGen := func(s structure) int { g, _ := s[2].(int); return g }
+	e.reg("(*sync.Cond).Broadcast", func(fr *frame, fn *ssa.Function, a []value) value {
+		s := structOf(a[0])
+		s[2] = condGen(s) + 1
+		fr.m.schedPoint(fr)
+		return nil
+	})
+	e.reg("(*sync.Cond).Signal", e.models["(*sync.Cond).Broadcast"])
+	e.reg("(*sync.Cond).Wait", func(fr *frame, fn *ssa.Function, a []value) value {
+		m := fr.m
+		s := structOf(a[0])
+		l := s[1].(iface)
+		unlock := m.eng.prog.LookupMethod(l.t, nil, "Unlock")
+		lock := m.eng.prog.LookupMethod(l.t, nil, "Lock")
+		g := condGen(s)
+		call(m, fr, 0, unlock, []value{l.v})
+		m.block(fr, func() bool { return condGen(s) != g })
+		call(m, fr, 0, lock, []value{l.v})
 		return nil
 	})
 	e.reg("(*sync.Pool).Get", func(fr *frame, fn *ssa.Function, a []value) value {
